@@ -628,6 +628,9 @@ pub fn domain_discard(s: &Scan) -> Option<String> {
     if !feature_on("item_first_block") && has_item_first_block(s) {
         return Some("known-domain: list item starts with a code block, quote, table or rule".into());
     }
+    if !feature_on("escape") && s.backslash_escape_in_text {
+        return Some("known-domain: backslash escape in running text".into());
+    }
     if !feature_on("item_first_list_nested") && has_nested_item_first_list(s) {
         return Some("known-domain: list item starts with a list whose first item starts with a list".into());
     }
